@@ -507,17 +507,6 @@ static void init_texts (void) {
   svalue_t e[3], k[2];
   add_text (V_int (0)); add_text (V_int (-1)); add_text (V_int (256)); add_text (V_int (4294967296LL));
   add_text (V_real (-2.5)); add_text (V_real (1e-7)); add_text (V_real (1e20)); add_text (V_real (12345678.0));
-  for (unsigned i = 0; i < sizeof strs / sizeof strs[0]; i++) add_text (V_str (strs[i]));
-  add_text (V_arr (0, 0)); add_text (V_map (0, 0, 0));
-  e[0] = V_int (1); add_text (V_arr (1, e));
-  e[0] = V_int (-1); e[1] = V_real (-2.5); add_text (V_arr (2, e));
-  for (unsigned i = 0; i < sizeof strs / sizeof strs[0]; i++) { e[0] = V_str (strs[i]); e[1] = V_int (2); add_text (V_arr (2, e)); }
-  for (unsigned i = 0; i < sizeof strs / sizeof strs[0]; i++) { k[0] = V_str (strs[i]); e[0] = V_str (strs[i]); add_text (V_map (1, k, e)); }
-  k[0] = V_int (1); e[0] = V_int (2); add_text (V_map (1, k, e));
-  k[0] = V_real (-2.5); e[0] = V_real (1e-7); add_text (V_map (1, k, e));
-  k[0] = V_int (1); k[1] = V_str ("k"); e[0] = V_arr (0, 0); e[1] = V_map (0, 0, 0); add_text (V_map (2, k, e));
-  e[0] = V_int (1); add_text (V_cls (1, e));
-  e[0] = V_str ("a\"b"); e[1] = V_real (-2.5); add_text (V_cls (2, e));
   /* nesting of every kind in every kind (outer 3 = container used as a mapping key) */
   for (int outer = 0; outer < 4; outer++) for (int inner = 0; inner < 3; inner++) {
     svalue_t one[1], in;
@@ -534,6 +523,17 @@ static void init_texts (void) {
   }
   add_text (chain (4, 4));
   add_text (chain (0, 6));
+  for (unsigned i = 0; i < sizeof strs / sizeof strs[0]; i++) add_text (V_str (strs[i]));
+  add_text (V_arr (0, 0)); add_text (V_map (0, 0, 0));
+  e[0] = V_int (1); add_text (V_arr (1, e));
+  e[0] = V_int (-1); e[1] = V_real (-2.5); add_text (V_arr (2, e));
+  for (unsigned i = 0; i < sizeof strs / sizeof strs[0]; i++) { e[0] = V_str (strs[i]); e[1] = V_int (2); add_text (V_arr (2, e)); }
+  for (unsigned i = 0; i < sizeof strs / sizeof strs[0]; i++) { k[0] = V_str (strs[i]); e[0] = V_str (strs[i]); add_text (V_map (1, k, e)); }
+  k[0] = V_int (1); e[0] = V_int (2); add_text (V_map (1, k, e));
+  k[0] = V_real (-2.5); e[0] = V_real (1e-7); add_text (V_map (1, k, e));
+  k[0] = V_int (1); k[1] = V_str ("k"); e[0] = V_arr (0, 0); e[1] = V_map (0, 0, 0); add_text (V_map (2, k, e));
+  e[0] = V_int (1); add_text (V_cls (1, e));
+  e[0] = V_str ("a\"b"); e[1] = V_real (-2.5); add_text (V_cls (2, e));
   text_off[0] = 0;
   for (int i = 0; i < ntext; i++) text_off[i + 1] = text_off[i] + (long) strlen (TEXT[i]) * (NSYM + 2);
   FILES[nfiles++] = strdup ("#/c16/o.c\nv ({1,\"a\",})\nmarker 5\nbv ([\"k\":2,])\n");
